@@ -248,7 +248,13 @@ def spec_convert(case, out):
         return sum(s[0] for s in sub) / len(sub), int(F(sum(s[1] for s in sub), len(sub)))
     want, want_step = nested_mean(case["res"])
     if want is None:
-        return None     # NaN / infinity / missing objective: outside the finite statement
+        # an execution whose best-epoch objective is NaN makes the mean NaN (it is not dropped from the average)
+        ls = [best_obj(x)[0] for x in leaves(case["res"])]
+        if ls and all(v is not None for v in ls) and any(v != v for v in ls) and not out["err"]:
+            got = dict(out["md"]).get(name)
+            if got is not None and got == got:
+                return "one execution's objective is NaN, the converted objective is %r instead of NaN" % (got,)
+        return None     # infinity / missing objective: outside the finite statement
     if out["err"]:
         return "conversion raised %s on finite results" % out["err"]
     got = dict(out["md"]).get(name)
